@@ -210,10 +210,11 @@ def db_entries(text):
     return ents, forgets
 
 
-def db_lookup_table(text):
+def db_lookup_table(text, keep_empty=False):
     """key -> set of (fullname, import_as, stmt): what the statement calls 'the database entries for a name':
     the (not forgotten) entries bound under that name plus the parent packages of every entry as plain
-    imports (a forgotten parent leaves an EMPTY set: the D15 shape)."""
+    imports.  A name all of whose entries are forgotten has no entry (`keep_empty`: keep it with an EMPTY
+    set — the D15 shape, for the family predicate)."""
     ents, forgets = db_entries(text)
     fset = {(f, a) for f, a, _ in forgets}
     tab = {}
@@ -225,7 +226,8 @@ def db_lookup_table(text):
         for i in range(1, len(parts)):
             pre = ".".join(parts[:i])
             tab.setdefault(pre, set()).add((pre, pre, "import " + pre))
-    return {k: {e for e in v if (e[0], e[1]) not in fset} for k, v in tab.items()}
+    out = {k: {e for e in v if (e[0], e[1]) not in fset} for k, v in tab.items()}
+    return out if keep_empty else {k: v for k, v in out.items() if v}
 
 
 def prefixes(d):
